@@ -226,7 +226,8 @@ def step (st : St) (args : List String) : St × String :=
     (st', withSpec o (gateSpec st w p))
   | ["kchpub", o, n] => ksStep st (.chpub o n)
   | ["kchpriv", w, o, n] =>
-    if (AMap.get st.ks.idents w).isNone then (st, "bad-op") else ksStep st (.chpriv w o n)
+    -- the harness selects the wallet first: a name it has never bound fails there
+    if (AMap.get st.ks.idents w).isNone then (st, "err:use") else ksStep st (.chpriv w o n)
   | ["ksignhash", w, a, p] =>
     match AMap.get st.addrIdx a with
     | none => (st, "bad-op")
